@@ -70,6 +70,9 @@ func (e event) String() string {
 type history struct {
 	N   int
 	Evs []event
+	// CR0: every member runs with raft commit_retries 0 (legal: what a raft
+	// section without that key loads as): one attempt per operation
+	CR0 bool
 }
 
 func (h history) String() string {
@@ -77,7 +80,11 @@ func (h history) String() string {
 	for _, e := range h.Evs {
 		s = append(s, e.String())
 	}
-	return fmt.Sprintf("n=%d %s", h.N, strings.Join(s, " "))
+	cr := ""
+	if h.CR0 {
+		cr = " [commit_retries=0]"
+	}
+	return fmt.Sprintf("n=%d %s%s", h.N, strings.Join(s, " "), cr)
 }
 
 func (h history) shape() string {
@@ -89,7 +96,11 @@ func (h history) shape() string {
 		}
 		s = append(s, x)
 	}
-	return fmt.Sprintf("n%d:%s", h.N, strings.Join(s, ","))
+	cr := ""
+	if h.CR0 {
+		cr = ":cr0"
+	}
+	return fmt.Sprintf("n%d:%s%s", h.N, strings.Join(s, ","), cr)
 }
 
 func alphabet(n int) []event {
@@ -131,7 +142,7 @@ func enumerate() []history {
 		var rec func(p []event)
 		rec = func(p []event) {
 			if len(p) > 0 {
-				out = append(out, history{n, append([]event{}, p...)})
+				out = append(out, history{N: n, Evs: append([]event{}, p...)})
 			}
 			if len(p) == maxLen {
 				return
@@ -171,7 +182,7 @@ func enumerate() []history {
 						}
 					}
 					if joins <= 2 {
-						out = append(out, history{n, append([]event{{Kind: "pin", At: "L", C: 0}}, p...)})
+						out = append(out, history{N: n, Evs: append([]event{{Kind: "pin", At: "L", C: 0}}, p...)})
 					}
 					return
 				}
@@ -187,9 +198,15 @@ func enumerate() []history {
 				if e.Kind == "pin" || e.Kind == "unpin" || e.Kind == "updpin" {
 					continue
 				}
-				out = append(out, history{n, []event{{Kind: "pin", At: "L", C: 0}, {Kind: "pin", At: "L", C: 2}, e}})
-				out = append(out, history{n, []event{{Kind: "pin", At: "L", C: 0}, {Kind: "updpin", At: "L"}, e}})
+				out = append(out, history{N: n, Evs: []event{{Kind: "pin", At: "L", C: 0}, {Kind: "pin", At: "L", C: 2}, e}})
+				out = append(out, history{N: n, Evs: []event{{Kind: "pin", At: "L", C: 0}, {Kind: "updpin", At: "L"}, e}})
 			}
+		}
+	}
+	// the same with commit_retries 0, for the histories of length <= 2
+	for _, h := range append([]history{}, out...) {
+		if len(h.Evs) <= 2 && h.N <= 3 {
+			out = append(out, history{N: h.N, Evs: h.Evs, CR0: true})
 		}
 	}
 	return out
@@ -208,6 +225,7 @@ type member struct {
 }
 
 type world struct {
+	cr0     bool
 	ctx     context.Context
 	t       *testing.T
 	hosts   []host.Host
@@ -234,6 +252,9 @@ func (w *world) startMember(idx int, initPeers []peer.ID, staging bool, base str
 	rcfg.Default()
 	rcfg.InitPeerset = initPeers
 	rcfg.WaitForLeaderTimeout = 20 * time.Second
+	if w.cr0 {
+		rcfg.CommitRetries = 0
+	}
 	rcfg.DataFolder = base + "/raft"
 	// every backup slot is already taken by an older, non-empty backup (a
 	// peer whose data was cleaned before): discarding the data of a removed
@@ -638,7 +659,7 @@ func run(t *testing.T, h history) (outcome string, viol []finding, states map[st
 	clus.Bubble(t, func(t *testing.T) {
 		ctx := context.Background()
 		_, hosts := clus.NewMocknet(ctx, 0, 7)
-		w := &world{ctx: ctx, t: t, hosts: hosts, store: metrics.NewStore(), scratch: scratch, refSet: map[peer.ID]bool{}, refPins: map[string]string{}, states: map[string]bool{}, next: h.N}
+		w := &world{ctx: ctx, t: t, hosts: hosts, store: metrics.NewStore(), scratch: scratch, refSet: map[peer.ID]bool{}, refPins: map[string]string{}, states: map[string]bool{}, next: h.N, cr0: h.CR0}
 		var ids []peer.ID
 		for i := 0; i < h.N; i++ {
 			ids = append(ids, hosts[i].ID())
